@@ -54,6 +54,8 @@ fn x_strategy(emax: i32) -> BoxedStrategy<f64> {
 pub fn v_strategy() -> BoxedStrategy<f64> {
     prop_oneof![
         2 => (-64i32..=64).prop_map(|k| gen::nudge(1.0, k)),
+        // v = 1 ± m·2^-j: from a few ulps to a few per cent away from 1
+        2 => (1i32..=52, 1u32..=64, any::<bool>()).prop_map(|(j, m, s)| { let d = m as f64 * 2.0f64.powi(-j - 6); if s { 1.0 + d } else { 1.0 - d } }),
         2 => (-40i32..=40).prop_map(|j| (j as f64).exp()),
         3 => gen::scaled_pos(-4, 4),
         1 => gen::scaled_pos(-1000, 1000),
@@ -79,7 +81,7 @@ impl Prop for C01 {
         "C01"
     }
     fn rule(&self) -> String {
-        "case = (form in {Poly0..Poly8, PolyN of length 0..=12, Log<Poly0..Poly8>, Log<PolyN>} uniform, coefficient vector with cancellation patterns (alternating signs, one dominating term, two nearly cancelling terms, single non-zero, all comparable, all zero; exponents up to ±200), argument x (specials ±0 ±1 ±3 ±17 1±ulp fractions; |x| in 2^±3; 2^±60; integers) or v>0 for Log (1±k ulp, e^j, moderate, full range, subnormal, MIN_POSITIVE, MAX)); plus an 'exact class' (integer x, integer coefficients times a common power of two, S(x)<2^53) where the result must equal the exact value. Oracle: exact dyadic Σc_i x^i and S=Σ|c_i||x|^i; |fl-P| <= 4(n+2)·2^-53·S as an exact inequality; Log: p at ln v computed to >300 bits, bound 4(n+2)u·S(l)+ulp(l)·Σi|c_i|l^(i-1). Domain (re-checked exactly, else counted as excluded): every c_i x^i and power of x within 2^±900. Non-trivial: degree>=1, x∉{0,±1} (v≠1), >=2 non-zero coefficients. Distinct by hash of (form, coefficient bits, argument bits).".into()
+        "case = (form in {Poly0..Poly8, PolyN of length 0..=12 (1 in 10: up to 48), Log<Poly0..Poly8>, Log<PolyN>} uniform, coefficient vector with cancellation patterns (alternating signs, one dominating term, two nearly cancelling terms, single non-zero, all comparable, all zero; exponents up to ±200), argument x (specials ±0 ±1 ±3 ±17 1±ulp fractions; |x| in 2^±3; 2^±60; integers) or v>0 for Log (1±k ulp, e^j, moderate, full range, subnormal, MIN_POSITIVE, MAX)); plus an 'exact class' (integer x, integer coefficients times a common power of two, S(x)<2^53) where the result must equal the exact value. Oracle: exact dyadic Σc_i x^i and S=Σ|c_i||x|^i; |fl-P| <= 4(n+2)·2^-53·S as an exact inequality; Log: p at ln v computed to >300 bits, bound 4(n+2)u·S(l)+ulp(l)·Σi|c_i|l^(i-1). Domain (re-checked exactly, else counted as excluded): every c_i x^i and power of x within 2^±900. Non-trivial: degree>=1, x∉{0,±1} (v≠1), >=2 non-zero coefficients. Distinct by hash of (form, coefficient bits, argument bits).".into()
     }
     fn assumptions(&self) -> Vec<String> {
         vec!["Log: the platform ln is within one ulp of the true logarithm (the property grants exactly that)".into()]
@@ -88,7 +90,7 @@ impl Prop for C01 {
         tier.pick(1_000_000, 20_000_000)
     }
     fn strategy(&self, _tier: Tier) -> BoxedStrategy<Case> {
-        let general = (0u8..20, 0usize..=12, any::<u8>()).prop_flat_map(|(form, nlen, wide)| {
+        let general = (0u8..20, prop_oneof![9 => 0usize..=12, 1 => 13usize..=48], any::<u8>()).prop_flat_map(|(form, nlen, wide)| {
             let n = match form {
                 0..=8 => form as usize + 1,
                 9 | 19 => nlen,
